@@ -185,6 +185,11 @@ def run_file(case):
     steps = max(1, min(int(case.get("steps", 5)), 400))
     with tempfile.TemporaryDirectory(prefix="vf_c17_") as tmp:
         path = os.path.join(tmp, "out.txt")
+        fm = case.get("filemode", "a")
+        if fm not in ("a", "at", "a+", "ta"):
+            raise InvalidCase("filemode")
+        if fm != "a":
+            kw["filemode"] = fm                     # other spellings of text append mode
         coll = StrCollector("fc", model, path, write_count=wc, ks=case.get("ks") or [1], sink=collected, **kw)
         model.systems.add_system(coll)
         for t in range(steps):
@@ -240,7 +245,7 @@ def strategy(tier):
         "steps": st.integers(1, 12)})
     filec = st.fixed_dictionaries({
         "kind": st.just("file"), "ks": st.lists(st.integers(0, 3), min_size=1, max_size=8), "write_count": st.integers(0, 5),
-        "window": win, "steps": st.integers(1, 25)})
+        "window": win, "steps": st.integers(1, 25), "filemode": st.sampled_from(["a", "a", "a", "at", "a+", "ta"])})
     from vf.fixtures import near_pow2
     # flushes of dozens of records: block-wise writing only differs from a plain loop at / beyond a block size
     bigfile = st.one_of(
@@ -264,4 +269,5 @@ def exhaustive(tier):
     for wc in range(5):
         for pat in itertools.product(ks, repeat=4):
             for win in wins:
-                yield {"kind": "file", "ks": list(pat), "write_count": wc, "window": win, "steps": 13}
+                yield {"kind": "file", "ks": list(pat), "write_count": wc, "window": win, "steps": 13,
+                       "filemode": ("a", "at", "a+")[(wc + sum(pat)) % 3]}
